@@ -29,7 +29,8 @@ Honest(sit) ==
    psig |-> "valid",      \* signature on the ledger channel update: "valid" | "otherkey"
    ver |-> 1,             \* version delta of the ledger channel update
    amount |-> "exact",    \* amount of V's sub-allocation: "exact" | "plus1" (the hub pays the difference)
-   imap |-> "ok",         \* index map of the sub-allocation / the proposal: "ok" | "swapped" | "none" | "short"
+   imap |-> "ok",         \* index map of the sub-allocation / the proposal: "ok" | "swapped" | "none" | "short" |
+                          \*   "duphub" / "duppeer" (not injective: both end points of V mapped to the hub / to the peer)
    vsigs |-> "both",      \* signatures on V's state: "both" | "senderonly" | "bad"
    vstate |-> "same",     \* "same" | "differs": the two proposals carry different (each fully signed) states of V
    vflag |-> TRUE,        \* V's parameters have the virtual-channel flag
@@ -38,7 +39,25 @@ Honest(sit) ==
    vfinal |-> sit = "vsettle",  \* V's state is final (settlement needs a final state)
    move |-> "exact",      \* balances of the ledger channel: "exact" | "hubpaysall" | "hubpaysmore" | "peerpaysall" (funding)
                           \*   "exact" | "hubless" | "swapped" (settlement)
-   keep |-> FALSE]        \* settlement: V's sub-allocation stays in the ledger channel
+   keep |-> FALSE,        \* settlement: V's sub-allocation stays in the ledger channel
+   vbal |-> "even",       \* funding: V's initial balances "even" (2 / 2) | "azero" (0 / 4) | "bzero" (4 / 0): an end point that owns
+                          \*   nothing in V makes defects of its index-map entry invisible to every check on sums
+   order |-> "ab"]        \* which proposal reaches H first: "ab" | "ba" (the second one meets the first one waiting)
+
+(* What the ledger channel update of the mutated side moves, in numbers: V's balances <<A, B>> of the shape, seen from *)
+(* the ledger channel of `side` (own = the peer's balance in V, other = the other end point's, which the hub stands in  *)
+(* for), and the pair <<peer pays / gets, hub pays / gets>> that the update contains.                                 *)
+VBals(m) == IF m.sit = "vsettle" THEN <<3, 1>>
+            ELSE CASE m.vbal = "even" -> <<2, 2>> [] m.vbal = "azero" -> <<0, 4>> [] m.vbal = "bzero" -> <<4, 0>>
+Own(m) == IF m.side = "A" THEN VBals(m)[1] ELSE VBals(m)[2]
+Other(m) == IF m.side = "A" THEN VBals(m)[2] ELSE VBals(m)[1]
+Moved(m) == CASE m.move = "exact" -> <<Own(m), Other(m)>>
+              [] m.move = "hubpaysall" -> <<0, Own(m) + Other(m)>>
+              [] m.move = "hubpaysmore" -> <<Own(m) - 1, Other(m) + 1>>
+              [] m.move = "peerpaysall" -> <<Own(m) + Other(m), 0>>
+              [] m.move = "hubless" -> <<Own(m) + 1, Other(m) - 1>>
+              [] m.move = "swapped" -> <<Other(m), Own(m)>>
+MoveExact(m) == Moved(m) = <<Own(m), Other(m)>>     \* in a shape with an empty-handed end point some "mutants" are the honest update
 
 Acceptable(m) ==
   /\ m.arrive = "both" /\ m.psig = "valid" /\ m.ver = 1
@@ -47,10 +66,10 @@ Acceptable(m) ==
   \* m.vparts: the end points of V are tied to the ledger channels by the index maps, not by identity; who they are
   \* does not matter for what H signs
   /\ (m.sit = "vsettle" => m.vfinal)          \* funding V with a final state: the statement has no clause against it
-  /\ m.move = "exact" /\ ~m.keep
+  /\ MoveExact(m) /\ ~m.keep
 
-Mutants(sit) ==
-  LET b == Honest(sit) IN
+Mutants1(b) ==
+  LET sit == b.sit IN
   { <<"none", b>> }
   \cup { <<"arrive", [b EXCEPT !.arrive = "one", !.side = s]>> : s \in {"A", "B"} }
   \cup { <<"psig", [b EXCEPT !.psig = "otherkey"]>> }
@@ -61,21 +80,36 @@ Mutants(sit) ==
             x \in (IF sit = "vfund" THEN {"hubpaysall", "hubpaysmore", "peerpaysall"} ELSE {"hubless", "swapped"}), s \in {"A", "B"} }
   \cup (IF sit = "vfund"
         THEN { <<"amount", [b EXCEPT !.amount = "plus1", !.side = s]>> : s \in {"A", "B"} }
-             \cup { <<"imap", [b EXCEPT !.imap = x, !.side = s]>> : x \in {"swapped", "none", "short"}, s \in {"A", "B"} }
+             \cup { <<"imap", [b EXCEPT !.imap = x, !.side = s]>> : x \in {"swapped", "none", "short", "duphub", "duppeer"}, s \in {"A", "B"} }
+             \* a map that is not injective together with the funding it would describe if entries were added up
+             \cup { <<"imapmove", [b EXCEPT !.imap = "duphub", !.move = "hubpaysall", !.side = s]>> : s \in {"A", "B"} }
+             \cup { <<"imapmove", [b EXCEPT !.imap = "duppeer", !.move = "peerpaysall", !.side = s]>> : s \in {"A", "B"} }
              \cup { <<"vflag", [b EXCEPT !.vflag = FALSE]>> }
              \cup { <<"vparts", [b EXCEPT !.vparts = "other"]>> }
              \cup { <<"vlocked", [b EXCEPT !.vlocked = TRUE]>> }
              \cup { <<"vfinal", [b EXCEPT !.vfinal = TRUE]>> }    \* a virtual channel funded with a final state: nothing forbids it
         ELSE { <<"vfinal", [b EXCEPT !.vfinal = FALSE]>> }
              \cup { <<"keep", [b EXCEPT !.keep = TRUE, !.side = s]>> : s \in {"A", "B"} })
+(* every single-feature mutant in every shape of the honest pair (balances of V, order of arrival) *)
+Shapes(sit) == { [Honest(sit) EXCEPT !.vbal = vb, !.order = o] :
+                   vb \in (IF sit = "vfund" THEN {"even", "azero", "bzero"} ELSE {"even"}), o \in {"ab", "ba"} }
+Mutants(sit) == UNION { Mutants1(b) : b \in Shapes(sit) }
+
+(* An index map that is not injective ("duphub": both end points of V stand at the hub's index) names no end point of *)
+(* V as the peer, yet with an end point that owns nothing in V the balances move exactly as the statement requires    *)
+(* (the peer is debited its balance in V: nothing).  The statement has no clause on the map of an ADDED sub-allocation *)
+(* beyond "exactly that channel's sub-allocation"; whether H signs such a pair is left open ("may-sign"), as long as   *)
+(* every participant's balance moves by exactly its balance in V.                                                      *)
+Tolerated(m) == Acceptable([m EXCEPT !.imap = IF @ \in {"duphub", "duppeer"} THEN "ok" ELSE @])
 
 ASSUME \A s \in Sits : Acceptable(Honest(s))
 (* every other single-feature mutant is unacceptable *)
-ASSUME \A s \in Sits : \A x \in Mutants(s) : (x[1] # "none" /\ ~(s = "vfund" /\ x[1] \in {"vfinal", "vparts"})) => ~Acceptable(x[2])
+ASSUME \A s \in Sits : \A x \in Mutants(s) :
+   (x[1] # "none" /\ ~(s = "vfund" /\ x[1] \in {"vfinal", "vparts"}) /\ ~(x[1] \in {"move", "imapmove"} /\ MoveExact(x[2]))) => ~Acceptable(x[2])
 
 (* "honest": the honest pair (the driver expects both signatures: sanity of the harness); "may-sign": acceptable by the *)
 (* statement, whether H signs is its business; "must-not-sign": any signature is a violation                           *)
-Verdict(s, x) == IF x[1] = "none" THEN "honest" ELSE IF Acceptable(x[2]) THEN "may-sign" ELSE "must-not-sign"
+Verdict(s, x) == IF x[1] = "none" /\ x[2].vbal = "even" THEN "honest" ELSE IF Tolerated(x[2]) THEN "may-sign" ELSE "must-not-sign"
 Export == \A s \in Sits : \A x \in Mutants(s) :
   PrintT(ToJson([msg |-> x[2], mutant |-> x[1], expect |-> Verdict(s, x)]))
 ASSUME Export
